@@ -904,6 +904,34 @@ where
         .await
 }
 
+/// Verification hook (only with `--cfg sccache_verif`): the private
+/// `dist_or_local_compile`, unchanged, callable with a harness-defined
+/// `Compilation` and `dist::Client`.
+#[cfg(all(sccache_verif, feature = "dist-client"))]
+pub async fn verif_dist_or_local_compile<T>(
+    service: &server::SccacheService<T>,
+    dist_client: Option<Arc<dyn dist::Client>>,
+    creator: T,
+    cwd: PathBuf,
+    compilation: Box<dyn Compilation<T>>,
+    weak_toolchain_key: String,
+    out_pretty: String,
+) -> Result<(Cacheable, DistType, process::Output)>
+where
+    T: CommandCreatorSync,
+{
+    dist_or_local_compile(
+        service,
+        dist_client,
+        creator,
+        cwd,
+        compilation,
+        weak_toolchain_key,
+        out_pretty,
+    )
+    .await
+}
+
 impl<T: CommandCreatorSync> Clone for Box<dyn CompilerHasher<T>> {
     fn clone(&self) -> Box<dyn CompilerHasher<T>> {
         self.box_clone()
